@@ -187,6 +187,22 @@ func (cr *c07Runner) submit(x int, phase string) {
 		s.Round = st.pendRound
 		s.nextPool = true
 	}
+	if s.Source == "cache" {
+		// answered from the cache: the answer exists now and belongs to the
+		// current cache epoch (collected later it would be booked to the epoch
+		// after a cache loss / legacy-table drop that happened in between)
+		ctx, cancel := context.WithTimeout(context.Background(), 5*time.Second)
+		a := cr.li.WaitAck(ctx, s)
+		cancel()
+		if a.OK {
+			st.acks[fmt.Sprintf("%d/%d", a.Index, a.Timestamp)] = true
+			st.acked = true
+			if len(st.acks) > 1 {
+				cr.env.violate("different-acks-for-one-entry", "one entry received different acknowledgements within one cache epoch: %v", sortedKeys(st.acks))
+			}
+		}
+		return
+	}
 	cr.out = append(cr.out, s)
 }
 
